@@ -191,6 +191,20 @@ strengthened - the generator was the gap nearly every time, an oracle clause a f
   the body of the 206 as it is sent. While looking at how the Host clause of C06 could become part of the invariant, the trailer section turned out to be able to
   change the Host field of a delivered request (F68, repaired in /repo; `Props/C06Trailers.lean`).
 
+* round 11 (ids -20 .. -22; 16 of 40 missed at first - the agents had moved on to other input types, shared objects and other entry points; before their changes
+  came back the generators had been widened in general: counts and sizes around the numbers a limit, a cache or a buffer would have - pipelines of 33 ... 1025
+  messages, bodies and chunks of 32 KiB / 64 KiB / 256 KiB, collections of 1025 fields, 129 parameters, 1025 list elements, 129 ranges, 1025 segments and pairs):
+  C02 the delivered body read through the file interface (`read()`, iteration), not only `bytes()`; C03 bracketed hosts of every sort in target and Host field
+  (IPvFuture with odd versions); C04 text that is not in a Unicode normalisation form in paths and queries, no-break space at the ends of a field value (the
+  generator itself had stripped it), and normalisation-sensitive characters in the shared text generator of C08 / C09 / C10 / C13; C07 a Connection field that
+  nominates a framing field, the proxy state machine next to the server's, and the clause that chunked framing decides the delivered body; C11 URIs built from
+  keywords / a dictionary without the empty components / the tuple, equal to the parsed URI and to the text in both directions; C12 scheme-qualified references
+  with a one-segment rootless path (`mailto:`, `urn:`: a clause that needs no library call), a second question mark inside a query; C13 pairs handed over as dict /
+  OrderedDict / list / iterator; C16 credentials as bytearray / memoryview; C17 an element built from the parameters of another and then changed; C18 a version
+  handed from one message to another (`message.protocol = other.protocol`, `= ServerProtocol`) and version texts outside ASCII; C19 the field built by the
+  application with `append(name, element)` and `append(name, value, **parameters)`, element texts contained in earlier ones, parameter names that sort behind `q`;
+  C20 the representation handed over as a `Body` object on a Response that still holds the body of its last answer.
+
 Stored patches are rebased when a `fix:` commit touches the same lines (noted in their notes.txt). Six changes are kept under `seeded/rejected/` and are not
 counted: C04-2, C12-1-superseded and C11-11 became harmless through the repairs F50 / F60 / F64 (their demonstrations pass with the patch applied); C06-9 and C07-10
 show only when parse() is called again on a state machine whose previous call raised - outside the properties' quantifier and already undefined on the unchanged tree
